@@ -161,6 +161,9 @@ def run_programs(spec):
             if form != "function":
                 prog["stmts"] = [s for s in prog["stmts"] if s[0] != "kwarg"]
                 prog["kwargs"] = {}
+            else:
+                # (a helper defined inside the function would be a nested scope, which the purity check may refuse)
+                prog["stmts"] = [s[:3] if s[0] == "raise" else s for s in prog["stmts"]]
             label = f"{form} program #{i}: {short([s[:2] if s[0] != 'echo' else ('echo',) for s in prog['stmts']], 300)}"
             res.case(core.h64(spec["spec"], form, repr(prog["stmts"])[:2000], i))
             t_final = [None]
